@@ -245,6 +245,19 @@ func (i *Identity) Mutate(repo repository.RepoClock, f func(orig *Mutator)) erro
 		return nil
 	}
 
+	// The clocks hold the last time handed out, which a commit may already carry. Tick them, so
+	// that the new version gets times of its own: what was committed (and signed) before it is
+	// still read with the previous version, what is committed after it with this one.
+	clocks, err := repo.AllClocks()
+	if err != nil {
+		return err
+	}
+	for name := range clocks {
+		if _, err := repo.Increment(name); err != nil {
+			return err
+		}
+	}
+
 	v, err := newVersion(repo,
 		mutated.Name,
 		mutated.Email,
